@@ -58,7 +58,7 @@ var vpProbeMu sync.Mutex
 
 func vpH_tv_stdlib() {
 	s := vpStrUpTo(3, "a/# ")
-	switch vpInt(0, 55) {
+	switch vpInt(0, 58) {
 	case 0:
 		vpAssert(strings.Count(s, "/") == vpCountByte(s, '/'), "strings.Count")
 	case 1:
@@ -229,6 +229,18 @@ func vpH_tv_stdlib() {
 		var target *vpProbeErr
 		err := fmt.Errorf("w: %w", &vpProbeErr{s})
 		vpAssert(errors.As(err, &target) && target.s == s, "errors.As")
+	case 56:
+		i, err := strconv.ParseInt("010", 10, 64)
+		j, err2 := strconv.ParseInt("-7", 10, 64)
+		k, err3 := strconv.ParseInt("0x1F", 0, 64)
+		_, err4 := strconv.ParseInt("12a", 10, 64)
+		vpAssert(err == nil && i == 10 && err2 == nil && j == -7 && err3 == nil && k == 31 && err4 != nil, "strconv.ParseInt")
+	case 57:
+		u, err := strconv.ParseUint("255", 10, 8)
+		_, err2 := strconv.ParseUint("256", 10, 8)
+		vpAssert(err == nil && u == 255 && err2 != nil, "strconv.ParseUint with a bit size")
+	case 58:
+		vpAssert(strconv.FormatInt(-42, 10) == "-42" && strconv.FormatInt(255, 16) == "ff" && strconv.Itoa(1000) == "1000", "strconv.FormatInt")
 	case 33:
 		m := map[string]int{s: 1, "zz": 2}
 		var ks []string
